@@ -70,5 +70,50 @@ impl ChangeHash {
     ensures r.0@ == sha256(seq![ct_u8(typ)] + leb(data.len() as nat) + data@)
 //@ end
 
+// ================================================================ Chunk::checksum_valid (C14)
+/// the four chunk bodies are opaque here; each exposes the ghost fact "its stored checksum matches its hash"
+pub struct Unverified;
+//@ item rust/automerge/src/storage/chunk.rs | struct CheckSum
+#[verifier::external_body] pub struct Document<'a> { _p: core::marker::PhantomData<&'a ()> }
+#[verifier::external_body] #[verifier::reject_recursive_types(V)] pub struct Change<'a, V> { _p: core::marker::PhantomData<&'a V> }
+#[verifier::external_body] #[verifier::reject_recursive_types(V)] pub struct BundleStorage<'a, V> { _p: core::marker::PhantomData<&'a V> }
+#[verifier::external_body] pub struct Compressed<'a> { _p: core::marker::PhantomData<&'a ()> }
+impl<'a> Document<'a> {
+    pub uninterp spec fn spec_valid(&self) -> bool;
+    #[verifier::external_body] pub fn checksum_valid(&self) -> (r: bool) ensures r == self.spec_valid() { unimplemented!() }
+}
+impl<'a, V> Change<'a, V> {
+    pub uninterp spec fn spec_valid(&self) -> bool;
+    #[verifier::external_body] pub fn checksum_valid(&self) -> (r: bool) ensures r == self.spec_valid() { unimplemented!() }
+    #[verifier::external_body] pub fn checksum(&self) -> CheckSum { unimplemented!() }
+}
+impl<'a, V> BundleStorage<'a, V> {
+    pub uninterp spec fn spec_valid(&self) -> bool;
+    #[verifier::external_body] pub fn checksum_valid(&self) -> (r: bool) ensures r == self.spec_valid() { unimplemented!() }
+}
+impl<'a> Compressed<'a> { #[verifier::external_body] pub fn checksum(&self) -> CheckSum { unimplemented!() } }
+//@ item rust/automerge/src/storage/chunk.rs | enum Chunk
+
+impl<'a> Chunk<'a> {
+    /// "the body's stored checksum matches the hash of its bytes", per variant
+    pub open spec fn body_valid(&self) -> bool {
+        match self {
+            Chunk::Document(d) => d.spec_valid(),
+            Chunk::Change(c) => c.spec_valid(),
+            Chunk::CompressedChange(change, _) => change.spec_valid(),
+            Chunk::Bundle(b) => b.spec_valid(),
+        }
+    }
+//@ fn rust/automerge/src/storage/chunk.rs | impl<'a> Chunk<'a> | checksum_valid
+//@   ret r
+//@   spec
+        // C14: a chunk is only reported valid when the checksum of its (decompressed) body matches --
+        // for EVERY variant, so no chunk type can bypass the check load relies on
+        ensures r ==> self.body_valid(),
+            // and an intact uncompressed chunk is accepted
+            (!(self is CompressedChange) && self.body_valid()) ==> r,
+//@ end
+}
+
 } // verus!
 fn main() {}
